@@ -1436,23 +1436,33 @@ class _DNF:
                     return list(val)
                 return [val]
 
-            return [
+            # Sort to be independent of the (hash-seed dependent) set order
+            return sorted(
                 (
-                    _maybe_list(val.to_list_tuple())
-                    if hasattr(val, "to_list_tuple")
-                    else _maybe_list(val)
-                )
-                for val in self
-            ]
+                    (
+                        _maybe_list(val.to_list_tuple())
+                        if hasattr(val, "to_list_tuple")
+                        else _maybe_list(val)
+                    )
+                    for val in self
+                ),
+                key=repr,
+            )
 
     class _And(frozenset):
         """Frozen set of conjunctions"""
 
         def to_list_tuple(self) -> list:
             # DNF "and" is List[Tuple]
+            # Sort to be independent of the (hash-seed dependent) set order
             return tuple(
-                val.to_list_tuple() if hasattr(val, "to_list_tuple") else val
-                for val in self
+                sorted(
+                    (
+                        val.to_list_tuple() if hasattr(val, "to_list_tuple") else val
+                        for val in self
+                    ),
+                    key=repr,
+                )
             )
 
     _filters: _And | _Or | None  # Underlying filter expression
